@@ -566,7 +566,7 @@ impl<W: Word, B: AsRef<[W]> + AsMut<[W]>> BitFieldSliceMut<W> for BitFieldVec<W,
         );
         // Reduce len to the elements available in both vectors
         let len = Ord::min(Ord::min(len, dst.len - to), self.len - from);
-        if len == 0 {
+        if len == 0 || self.bit_width == 0 {
             return;
         }
         let bit_width = Ord::min(self.bit_width, dst.bit_width);
@@ -631,11 +631,18 @@ impl<W: Word, B: AsRef<[W]> + AsMut<[W]>> BitFieldSliceMut<W> for BitFieldVec<W,
                 dest[dst_first_word + i] = word | (source[src_first_word + i] << shift);
                 word = source[src_first_word + i] >> (W::BITS - shift);
             }
+            // The last destination word gets the bits left over from the
+            // previous source word and, if there is one, the lower bits of a
+            // further source word
+            let words = dst_last_word - dst_first_word;
+            if src_first_word + words <= src_last_word {
+                word |= source[src_first_word + words] << shift;
+            }
             let residual =
                 bit_len - (W::BITS - dst_bit) - (dst_last_word - dst_first_word - 1) * W::BITS;
             let mask = W::MAX >> (W::BITS - residual);
             dest[dst_last_word] &= !mask;
-            dest[dst_last_word] |= source[src_last_word] & mask;
+            dest[dst_last_word] |= word & mask;
         } else {
             // src_first_word != src_last_word && dst_first_word !=
             // dst_last_word && src_bit > dst_bit
